@@ -46,7 +46,8 @@ def debug_function(prop: str, func: str, timeout: float, verbose: bool):
         c = reg.contracts[q]
         t0 = time.time()
         res = eng.verify_function(q, c)
-        print("== %s: %d paths, %d obligations, %d limits (%.2fs)" % (q, res.paths, len(res.obligations), len(res.limits), time.time() - t0))
+        print("== %s: %d paths (%d normal, %d raising), %d obligations, %d limits (%.2fs)" % (
+            q, res.paths, res.normal_paths, res.raising_paths, len(res.obligations), len(res.limits), time.time() - t0))
         for l in res.limits:
             print("   LIMIT:", l)
         results = solve.discharge(eng, res.obligations, timeout=timeout, tag="debug")
